@@ -1,7 +1,8 @@
 #!/bin/bash
 # Idempotent, offline: overlay venv on /venv with crosshair-tool + z3 from the wheelhouse.
 set -e
-V=/verif/.venv
+ROOT="$(cd "$(dirname "$0")/.." && pwd)"
+V="$ROOT/.venv"
 if [ -x "$V/bin/python" ] && "$V/bin/python" -c 'import crosshair, z3, numpy, kazoo' 2>/dev/null; then
   exit 0
 fi
@@ -17,4 +18,4 @@ fi
   PIP_NO_INDEX=1 "$V/bin/pip" install -q --no-index --find-links /opt/veriftools/wheels crosshair-tool z3-solver >/dev/null 2>&1 \
     || PIP_NO_INDEX=1 "$V/bin/pip" install --no-index --find-links /opt/veriftools/wheels crosshair-tool z3-solver
   "$V/bin/python" -c 'import crosshair, z3, numpy, kazoo'
-) 9>/verif/.venv.lock
+) 9>"$ROOT/.venv.lock"
